@@ -26,8 +26,12 @@ def gen_scenario(rng):
         others.append(["s:X"] + ["r:unsub"] * rng.randint(0, 2) + ["r:disc"])
     if rng.random() < 0.3:
         others.append(["s:E"] + ["r:unsub"] * rng.randint(0, 2) + ["r:disc"])
-    if rng.random() < 0.6:
-        others.append(["s:T", "r:alive", "r:alive"][: rng.randint(2, 3)])
+    if rng.random() < 0.5:
+        others.append(["s:T", "r:alive"])
+        if rng.random() < 0.4:
+            others.append(["s:T2", "r:alive"])
+    if rng.random() < 0.35:
+        others.append(["s:D", "r:alive", "r:alive"][: rng.randint(2, 3)])
     if rng.random() < 0.35:
         others.append(["s:U", "r:unsub"])
     if rng.random() < 0.25:
@@ -98,6 +102,13 @@ def oracle_sched(reset, sched, out):
             if p is not None and p < cplus and first("start:C") is not None and first("start:C") < p:
                 return f"connect callback started after {closer.split(':')[-1]} had closed the connection", \
                     {"kind": "connect-after-close"}
+    if "s:D" not in sched.split():
+        # presence timers are armed only after the connect callback returned (scheduleOnConnectTimers runs
+        # after triggerConnect); the directly started ticks of actor D bypass the timer, hence the exclusion
+        cminus0 = first("connect-")
+        for i, e in enumerate(ev):
+            if e == "alive+" and (cminus0 is None or i < cminus0):
+                return "alive callback ran while the connect callback had not returned", {"kind": "alive-during-connect"}
     if len(pos.get("disconnect+", [])) > 1:
         return "disconnect callback ran more than once", {"kind": "disconnect-twice"}
     dplus = first("disconnect+")
@@ -178,8 +189,8 @@ def run(ctx):
         ops = json.load(open(ctx.replay)).get("ops", [])
     else:
         ops = []
-        for f in known:                      # re-derive every known finding from its stored replay
-            ops += f["replay"]["ops"]
+        for f in known:                      # replays of known *and fixed* findings always run: a known one must
+            ops += f["replay"]["ops"]        # still reproduce, a fixed one must not (a regression is a VIOLATION)
         ops += [l.rstrip("\n") for l in open(os.path.join(here, "corpus.ops")) if l.strip() and not l.startswith("#")]
         ops += HTTP_OPS
         for _ in range(ctx.scale(200, 4000)):
@@ -251,7 +262,7 @@ def run(ctx):
     ctx.traces_validated = len(sops)
     ctx.extra["distinct_callback_logs"] = len(seen_logs)
     for f in known:
-        if f["id"] not in [k.get("id") for k in ctx.known_hits]:
+        if f.get("status") == "known" and f["id"] not in [k.get("id") for k in ctx.known_hits]:
             ctx.notes.append(f"finding {f['id']} did not reproduce on this tree")
     if not proofs_ok:
         ctx.proof_broken()
